@@ -86,6 +86,10 @@ Theorem C06_push_forms_tokenise :
   forall (f : pform) (d : bytes), pfits f d -> d <> [] -> toks (length (106 :: enc_push f d)) (106 :: enc_push f d) = Some [TOp 106; TData d].
 Proof. exact toks_opreturn_push. Qed.
 
+Theorem C06_address_only_for_address_types :
+  forall (bs : bytes) (v : N) (a : list N), snd (eval_custom bs v) = Some a -> In (fst (eval_custom bs v)) [PP2PKH; PP2PK; PP2SH].
+Proof. exact fork_address_only_for_address_types. Qed.
+
 Print Assumptions C06_ip_machine_is_structural_tokenizer.
 Print Assumptions C06_eval_total.
 Print Assumptions C06_never_panics.
@@ -107,3 +111,4 @@ Print Assumptions C06_address_decodes.
 Print Assumptions C06_p2pk_address_decodes.
 Print Assumptions C06_base58check_roundtrip.
 Print Assumptions C06_push_forms_tokenise.
+Print Assumptions C06_address_only_for_address_types.
